@@ -338,6 +338,8 @@ Eval(n, p, sc, st, bk) ==
             LET l == Eval(n[3], p \o <<1>>, sc, st, bk) IN
             IF IsErr(l[1]) THEN l
             ELSE IF n[2] \in Logic /\ Tag(l[1]) # "b" THEN <<Err, l[2]>>
+            ELSE IF n[2] \in Logic /\ IsAny(l[1])                   \* undecided left operand: it may or may not short-circuit
+                 THEN <<AnyOf("b"), Eval(n[4], p \o <<2>>, sc, l[2], bk)[2]>>
             ELSE IF n[2] = "AND" /\ l[1] = False THEN l              \* short circuit: the right side is not evaluated
             ELSE IF n[2] = "OR" /\ l[1] = True THEN l
             ELSE LET r == Eval(n[4], p \o <<2>>, sc, l[2], bk) IN
